@@ -918,23 +918,19 @@ func (m *lfsModule) handleHTTPUploadPart(w http.ResponseWriter, r *http.Request,
 		return
 	}
 
-	if _, err := session.sha256Hasher.Write(body); err != nil {
-		m.lfsWriteHTTPError(w, requestID, session.Topic, http.StatusBadRequest, "hash_error", err.Error())
-		return
-	}
-	if session.checksumHasher != nil && session.checksumHasher != session.sha256Hasher {
-		if _, err := session.checksumHasher.Write(body); err != nil {
-			m.lfsWriteHTTPError(w, requestID, session.Topic, http.StatusBadRequest, "hash_error", err.Error())
-			return
-		}
-	}
-
 	etag, err := m.s3Uploader.UploadPart(r.Context(), session.S3Key, session.UploadID, partNumber, body)
 	if err != nil {
 		m.metrics.IncS3Errors()
 		m.tracker.EmitUploadFailed(requestID, session.Topic, session.S3Key, "s3_upload_failed", err.Error(), "upload_part", session.TotalUploaded, 0)
 		m.lfsWriteHTTPError(w, requestID, session.Topic, http.StatusBadGateway, "s3_upload_failed", err.Error())
 		return
+	}
+	// Hash the part only once it is stored: the client retries a failed part,
+	// and hashing it on every attempt would make the envelope's digests cover
+	// it more than once.
+	_, _ = session.sha256Hasher.Write(body)
+	if session.checksumHasher != nil && session.checksumHasher != session.sha256Hasher {
+		_, _ = session.checksumHasher.Write(body)
 	}
 	m.logger.Info("http chunked upload part stored", "requestId", logSafe(requestID), "uploadId", logSafe(sessionID), "part", partNumber, "etag", logSafe(etag), "bytes", len(body))
 
